@@ -1394,3 +1394,87 @@ Lemma restrictions_refuted :
 Proof. vm_compute. repeat split; reflexivity. Qed.
 
 End Witness.
+
+(* ------------------------------------------------------------------------------------------- *)
+(* Part D: a well-formed request with a valid credential, left alone, is admitted (both variants, every
+   combination of synchronous / asynchronous callbacks) *)
+Section Admit.
+Variable w : world.
+Variable sid : bytes.
+
+Lemma get_u32_u32 n r : 0 <= n < 4294967296 -> get_u32 (u32 n ++ r) = Some (n, r).
+Proof. intros H. unfold u32. cbn [app get_u32]. f_equal. f_equal. lia. Qed.
+
+Lemma blen_app a b : blen (a ++ b) = blen a + blen b.
+Proof. unfold blen. rewrite app_length. lia. Qed.
+
+Lemma blen_nonneg a : 0 <= blen a.
+Proof. unfold blen. lia. Qed.
+
+Lemma get_string_sstr x r : blen x < 4294967296 -> get_string (sstr x ++ r) = Some (x, r).
+Proof.
+  intros H. unfold get_string, sstr. rewrite <- app_assoc.
+  rewrite get_u32_u32 by (pose proof (blen_nonneg x); lia).
+  rewrite blen_app. pose proof (blen_nonneg x). pose proof (blen_nonneg r).
+  replace ((0 <=? blen x) && (blen x <=? blen x + blen r)) with true by lia.
+  unfold blen. rewrite Nat2Z.id.
+  rewrite firstn_app, Nat.sub_diag, firstn_all. cbn [firstn]. rewrite app_nil_r.
+  rewrite skipn_app, Nat.sub_diag, skipn_all. reflexivity.
+Qed.
+
+Lemma parse_head_enc ub svc m body :
+  blen ub < 4294967296 -> blen svc < 4294967296 -> blen m < 4294967296 ->
+  parse_head (50 :: sstr ub ++ sstr svc ++ sstr m ++ body) = Some (ub, svc, m, body).
+Proof.
+  intros H1 H2 H3. unfold parse_head. rewrite Z.eqb_refl.
+  rewrite get_string_sstr by assumption. rewrite get_string_sstr by assumption.
+  rewrite get_string_sstr by assumption. reflexivity.
+Qed.
+
+
+Lemma kind_pw : kind_of S_PASSWORD = MPw. Proof. reflexivity. Qed.
+Lemma conn_refl : zlist_eqb S_CONN S_CONN = true. Proof. reflexivity. Qed.
+
+Lemma pw_start_enc U pw pw' :
+  blen pw < 4294967296 -> prep w pw = Some pw' ->
+  pw_start w U ([0] ++ sstr pw) = (CbPw, eff (res_of_pw (pw_check w U pw'))).
+Proof.
+  intros H1 H2. unfold pw_start. cbn [app get_bool Z.eqb negb].
+  replace (sstr pw) with (sstr pw ++ []) by apply app_nil_r.
+  rewrite get_string_sstr by assumption. rewrite H2. reflexivity.
+Qed.
+
+Theorem admit_password fixed ub pw U pw' :
+  blen ub < 1024 -> blen pw < 4294967296 ->
+  prep w ub = Some U -> prep w pw = Some pw' ->
+  needs_auth w U = true -> pw_supported w = true -> pw_check w U pw' = PTrue ->
+  let p := 50 :: sstr ub ++ sstr S_CONN ++ sstr S_PASSWORD ++ ([0] ++ sstr pw) in
+  let s := drive w sid fixed 12 (step w sid fixed init (Deliver p)) in
+  dead s = false /\ complete s = true /\ username s = U /\ completed_as s = [U] /\ out s = [RSuccess] /\
+  conts s = [].
+Proof.
+  intros Hub Hpw HU Hpw' Hna Hsup Hck. cbv zeta.
+  set (body := [0] ++ sstr pw).
+  set (p := 50 :: sstr ub ++ sstr S_CONN ++ sstr S_PASSWORD ++ body).
+  assert (Hph : parse_head p = Some (ub, S_CONN, S_PASSWORD, body)).
+  { unfold p. apply parse_head_enc; [lia|reflexivity|reflexivity]. }
+  assert (Hs1 : forall akl, auth_start w sid akl U MPw p body = (CbPw, eff RsSuccess)).
+  { intros akl. cbn [auth_start]. unfold body. rewrite (pw_start_enc U pw pw' Hpw Hpw'), Hck. reflexivity. }
+  assert (Hlen : (1024 <=? blen ub) = false) by lia.
+  assert (E0 : step w sid fixed init (Deliver p) = proc_request w fixed p init) by reflexivity.
+  rewrite E0. unfold proc_request. rewrite Hph, Hlen, conn_refl, HU. cbn [negb complete init username]. rewrite kind_pw.
+  clearbody p body.
+  destruct (zlist_eqb U []) eqn:EU.
+  - (* the initial, empty user name: no begin_auth *)
+    apply zlist_eqb_true in EU. subst U. cbn [negb].
+    destruct fixed, (async_pw w) eqn:Ep;
+      cbn - [auth_start]; rewrite ?Hsup; cbn - [auth_start]; rewrite ?Hs1; cbn; rewrite ?Ep; cbn;
+      repeat split; reflexivity.
+  - cbn [negb].
+    destruct fixed, (async_begin w) eqn:Eb, (async_pw w) eqn:Ep;
+      cbn - [auth_start]; rewrite ?Eb; cbn - [auth_start]; rewrite ?Hna; cbn - [auth_start];
+      rewrite ?Hsup; cbn - [auth_start]; rewrite ?Hs1; cbn; rewrite ?Ep; cbn;
+      repeat split; reflexivity.
+Qed.
+
+End Admit.
